@@ -96,7 +96,7 @@ Vec(cells, meta, mm, view) == Obj("vec", cells, <<>>, <<>>, meta, mm, view)
 Mat(rows, cols, view) == Obj("mat", <<>>, rows, cols, cols, "-", view)
 Base(R, C) == Mat(Iota(R), Iota(C), TRUE)
 
-Map(f, idx) == [j \in 1..Len(idx) |-> f[idx[j] + 1]]
+Map(f, idx) == [j \in 1..Len(idx) |-> IF idx[j] + 1 \in DOMAIN f THEN f[idx[j] + 1] ELSE 0]   \* (placeholder entries of out-of-range keys)
 
 (* cells of an object in reading order *)
 CellsOf(o) == IF o.k = "mat"
